@@ -420,9 +420,11 @@ def c02(tier):
     over = {"src/aa_over.rs": 'fn a() { info!("[ref: 9999999999] over the range"); }\n',
             "src/zz_over.rs": 'fn z() { info!("[ref: 4294967296] just over"); }\n'}
     for lock in (None, 10):
-        sc = rl.Scenario("over-range-token", {"f1.rs": [S(11), S(12, ref=3)], "f2.rs": [S(21), S(22)], "mm.rs": [S(31)]},
-                         lock=lock, extra_files=over)
-        rl.planned_runs(binary, sc, [[("edit", "")]], batch, v, follow="c02", sigbase={"over_range_token": True})
+        # ... created after the ordinary files and before them (the walk is not sorted: either may come first)
+        for ex in (over, {"^" + k: t for k, t in over.items()}):
+            sc = rl.Scenario("over-range-token", {"f1.rs": [S(11), S(12, ref=3)], "f2.rs": [S(21), S(22)], "mm.rs": [S(31)]},
+                             lock=lock, extra_files=ex)
+            rl.planned_runs(binary, sc, [[("edit", "")]], batch, v, follow="c02", sigbase={"over_range_token": True})
     # a later run of a history (after the highest-numbered statement was deleted) cannot examine / open / read the lock
     for structured in (False, True):
         sc = rl.Scenario("lock-unreadable-later", {"f1.rs": [S(11), S(12)], "f2.rs": [S(21)]}, lock=None, structured=structured)
